@@ -167,6 +167,22 @@ def back_slice(fa, op, terminal):
     return out
 
 
+def ctor_fields(fa, adt):
+    """For a constructor-like function (`fn new(a, b) -> T { T { x: f(a), y: g(b) } }`): the
+    parameter each field of the returned `adt` value is computed from, {field: parameter number},
+    or None when the function is not of that shape (a field fed by no or several parameters)."""
+    aggs = [s for b, i, s in fa.stmts() if "rv" in s and s["rv"]["k"] == "agg" and s["rv"].get("adt") == adt]
+    if len(aggs) != 1:
+        return None
+    out = {}
+    for fld, op in zip(aggs[0]["rv"]["fields"], aggs[0]["rv"]["ops"]):
+        src = {x[1] for x in back_slice(fa, op, lambda b, t: None) if x[0] == "arg"}
+        if len(src) != 1:
+            return None
+        out[fld] = src.pop()
+    return out
+
+
 def value_defs(fa, local, depth=0, seen=None):
     """All defining rvalues/calls of a (possibly multiply-defined) local, following plain moves.
     Returns list of (bb, kind, payload)."""
